@@ -119,10 +119,10 @@ Theorem control_op_lang_eq : forall w, In w ctl_probe ->
   (peg_matches cddl_pest r_control_op w = Some true <-> Der g_ctl (ARef n_ctlop) w []).
 Proof. apply agree_all_iff. vm_compute. reflexivity. Qed.
 
-(* every registered name but one is accepted as a whole control operator: ".cborseq" is not *)
+(* every registered name is accepted as a whole control operator (".cborseq" included, since 8d55c20) *)
 Theorem control_names_reachable :
   forallb (fun n => match peg_matches cddl_pest r_control_op (46 :: s2n n) with
-                    | Some b => Bool.eqb b (negb (String.eqb n "cborseq"))
+                    | Some b => b
                     | None => false
                     end) registered_controls = true.
 Proof. vm_compute. reflexivity. Qed.
@@ -135,9 +135,6 @@ Proof. intros g s w H. apply (recognise_correct g s w true H). reflexivity. Qed.
 
 Theorem id_lang_refuted : exists w, peg_matches cddl_pest r_id w = Some false /\ Der abnf_spec (ARef n_id) w [].
 Proof. exists (s2n "a--b"). split; [vm_compute; reflexivity | apply recognise_true; vm_compute; reflexivity]. Qed.
-
-Theorem ctlop_lang_refuted : exists w, peg_matches cddl_pest r_control_op w = Some false /\ Der abnf_spec (ARef n_ctlop) w [].
-Proof. exists (s2n ".cborseq"). split; [vm_compute; reflexivity | apply recognise_true; vm_compute; reflexivity]. Qed.
 
 Theorem text_lang_refuted : exists w, peg_matches cddl_pest r_text_value w = Some true /\ ~ Der abnf_spec (ARef n_text) w [].
 Proof. exists (s2n """\ud800"""). split; [vm_compute; reflexivity | apply recognise_false; vm_compute; reflexivity]. Qed.
